@@ -96,6 +96,19 @@ func c02Scenarios(tier string) []*Scenario {
 			out = append(out, sc)
 		}
 	}
+	// a response that cannot be encoded (the handler ignores the failed send and returns nil, or fails): the call
+	// is not reported as a success
+	for _, tr := range []string{"inproc", "http"} {
+		for _, rpc := range []RPC{
+			{Kind: "ss", Client: []string{"S0", "C", "R*", "R"}, Handler: []string{"r", "s0", "sn", "ret:ok"}},
+			{Kind: "ss", Client: []string{"S0", "C", "R*", "R"}, Handler: []string{"r", "sn", "ret:ok"}},
+			{Kind: "bd", Client: []string{"S0", "C", "R*", "R"}, Handler: []string{"r*", "sn", "s0", "ret:ok"}},
+			{Kind: "cs", Client: []string{"S0", "C", "R*", "R"}, Handler: []string{"r*", "sn", "ret:ok"}},
+		} {
+			add(tr, "", rpc)
+			out[len(out)-1].Name = "unsendable|" + rpcName(rpc)
+		}
+	}
 	// the handlers behind a middleware whose ResponseWriter has no Flush (the reply leaves when the handler returns)
 	for _, rpc := range []RPC{
 		{Kind: "unary", Client: []string{"I"}, Handler: []string{"dec", "ret:st:5"}},
@@ -210,7 +223,15 @@ func c02Oracle(sc *Scenario, rec *Rec, s *mc.Sched) []mc.Violation {
 			}
 		}
 	}
-	if sc.Cancel == "" && len(rr.RecvRes) > 0 && ref.Status == "nil" && !complete {
+	if strings.HasPrefix(sc.Name, "unsendable|") {
+		// one of the responses could not be encoded: whatever else happens, no receive reports a clean end
+		for k, res := range rr.RecvRes {
+			if (rpc.serverStreams() && res == "EOF") || (!rpc.serverStreams() && ((k == 0 && res == "nil") || (k > 0 && res == "EOF" && rr.RecvRes[0] == "nil"))) {
+				add("success-despite-unsendable-response", fmt.Sprintf("receive #%d reported %s although a response of the handler could not be encoded", k, res))
+			}
+		}
+	}
+	if sc.Cancel == "" && len(rr.RecvRes) > 0 && ref.Status == "nil" && !complete && !strings.HasPrefix(sc.Name, "unsendable|") {
 		add("incomplete", fmt.Sprintf("received %v, handler sent %v", rr.CliRecv, ref.Msgs))
 	}
 	return out
